@@ -6,7 +6,7 @@
    matrix_from_callback are the executable model (coq/Cli_Model.v). *)
 From Coq Require Import String Ascii List ZArith QArith Bool Arith Permutation.
 From TK Require Import Cli_Model Cli_Spec Cli_Argv_Model Cli_Argv_Spec Cli_Proof_Argv Cli_Proof_Decide Cli_Proof_Files Cli_Proof_Transpose
-  Cli_Proof_Pre Cli_Proof_Main Cli_Proof_Exit Cli_Proof_Round Cli_Proof_Perm Cli_Proof_IntIO Cli_Proof_Gen Cli.
+  Cli_Proof_Pre Cli_Proof_Main Cli_Proof_Exit Cli_Proof_Round Cli_Proof_Perm Cli_Proof_IntIO Cli_Proof_Shape Cli_Proof_Gen Cli.
 Import ListNotations.
 Local Close Scope Q_scope.
 Local Open Scope string_scope.
@@ -206,6 +206,65 @@ Example cli_unequal_rows_nonvacuous :
   nth_error ([1; 2] :: [[3]]) 1 = Some [3] /\ length [3] <> length [1; 2].
 Proof. split; [reflexivity|discriminate]. Qed.
 
+(* ---- read_data's length test AS READ FROM THE SOURCE (gen_read_check: the canonical text of the function
+   is compared with the reviewed shape on every run) ---- *)
+Theorem cli_util_shapes :
+  gen_read_loop = LoopGetline /\ gen_read_check = CheckEveryRow /\ gen_mfc = MfcLoops InitUninit 0.
+Proof. exact gen_shapes. Qed.
+Print Assumptions cli_util_shapes.
+
+Theorem cli_unequal_rows_rejected : forall (V : Type) (r0 : list V) rows i r,
+  nth_error (r0 :: rows) i = Some r -> length r <> length r0 ->
+  exists k, to_matrix_with V gen_read_check (r0 :: rows) = Some (RWrong k).
+Proof. exact gen_unequal_rows. Qed.
+Print Assumptions cli_unequal_rows_rejected.
+
+Example cli_unequal_rows_rejected_nonvacuous :
+  nth_error ([1; 2; 3] :: [[4; 5]; [6; 7; 8; 10]]) 1 = Some [4; 5] /\ length [4; 5] <> length [1; 2; 3].
+Proof. split; [reflexivity|discriminate]. Qed.
+
+Theorem cli_ragged_file_rejected : forall (V : Type) (parse : string -> option V) d content r0 rows i r,
+  parse_rows V parse d (lines_fixed content) = r0 :: rows ->
+  nth_error (r0 :: rows) i = Some r -> length r <> length r0 ->
+  exists k, read_with V parse gen_read_loop gen_read_check d content = Some (RWrong k).
+Proof. exact gen_read_ragged. Qed.
+Print Assumptions cli_ragged_file_rejected.
+
+Example cli_ragged_file_rejected_nonvacuous :
+  parse_rows string (fun s => Some s) (ascii_of_nat 44) (lines_fixed ("1,2" ++ String nl ("3" ++ String nl "")))
+  = ["1"; "2"] :: [["3"]] /\ nth_error (["1"; "2"] :: [["3"]]) 1 = Some ["3"] /\ length ["3"] <> length ["1"; "2"].
+Proof. split; [vm_compute; reflexivity|]. split; [reflexivity|discriminate]. Qed.
+
+(* the aggregate test `#values = #lines * columns` (seeded change C20_2) is invisible on well-formed files ... *)
+Theorem total_count_same_on_wellformed : forall (V : Type) c (rows : list (list V)),
+  rect V c rows -> to_matrix_total V rows = to_matrix V rows.
+Proof. exact to_matrix_total_rect. Qed.
+Print Assumptions total_count_same_on_wellformed.
+
+Example total_count_same_on_wellformed_nonvacuous : rect nat 2 [[1; 2]; [3; 4]].
+Proof. repeat constructor. Qed.
+
+(* ... accepts every file whose total fits, ragged or not, and re-wraps it ... *)
+Theorem total_count_accepts_when_sum_fits : forall (V : Type) (r0 : list V) rows,
+  length (concat (r0 :: rows)) = length (r0 :: rows) * length r0 ->
+  to_matrix_total V (r0 :: rows)
+  = RMat (chunks V (length r0) (length (r0 :: rows)) (concat (r0 :: rows))).
+Proof. exact to_matrix_total_accepts. Qed.
+Print Assumptions total_count_accepts_when_sum_fits.
+
+Example total_count_accepts_when_sum_fits_nonvacuous :
+  length (concat ([1; 2; 3] :: [[4; 5]; [6; 7; 8; 10]])) = length ([1; 2; 3] :: [[4; 5]; [6; 7; 8; 10]]) * length [1; 2; 3].
+Proof. reflexivity. Qed.
+
+(* ... so it is refuted: rows of 3, 2, 4 values *)
+Theorem total_count_check_refuted :
+  exists (rows m : list (list nat)) i r,
+    nth_error rows i = Some r /\ length r <> length (hd [] rows) /\
+    (exists k, to_matrix nat rows = RWrong k) /\
+    to_matrix_with nat CheckTotalCount rows = Some (RMat m) /\ m <> rows.
+Proof. exact total_count_refuted. Qed.
+Print Assumptions total_count_check_refuted.
+
 (* what write_matrix writes, read_data reads back (number printing / parsing are oracles) *)
 Theorem cli_roundtrip : forall (V : Type) (parse : string -> option V) (print : V -> string),
   (forall v, parse (print v) = Some v) ->
@@ -375,3 +434,27 @@ Theorem precompute_iterations_disjoint : forall N i i' c,
   i <> i' -> In c (cells_of_iter N i) -> In c (cells_of_iter N i') -> False.
 Proof. exact iterations_disjoint. Qed.
 Print Assumptions precompute_iterations_disjoint.
+
+(* the loops of matrix_from_callback AS READ FROM THE SOURCE (gen_mfc) fill every cell with cb(min, max) *)
+Theorem precompute_table_value_source : forall (S : Type) (cb : nat -> nat -> S) (zero : S) N a b t,
+  a < N -> b < N -> mfc_of_shape S cb zero gen_mfc N = Some t ->
+  t a b = Some (cb (Nat.min a b) (Nat.max a b)).
+Proof. exact gen_mfc_value. Qed.
+Print Assumptions precompute_table_value_source.
+
+Example precompute_table_value_source_nonvacuous :
+  exists t, mfc_of_shape nat Nat.add 0 gen_mfc 3 = Some t /\ 1 < 3.
+Proof. eexists. split; [vm_compute; reflexivity|auto]. Qed.
+
+(* `for (j = i + off; ...)` with off >= 1 never assigns the diagonal (seeded change C20_1, mutant m7) *)
+Theorem precompute_strict_upper_diagonal : forall (S : Type) (cb : nat -> nat -> S) (init : table S) off N a,
+  1 <= off -> mfc_with S cb init off N a a = init a a.
+Proof. exact mfc_strict_upper_diag. Qed.
+Print Assumptions precompute_strict_upper_diagonal.
+
+Theorem precompute_strict_upper_refuted :
+  exists (X : nat -> list Z) N a t,
+    a < N /\ mfc_of_shape Z (fun a b => dotZ (X a) (X b)) 0%Z (MfcLoops InitZero 1) N = Some t /\
+    t a a = Some 0%Z /\ dotZ (X a) (X a) <> 0%Z.
+Proof. exact precompute_strict_upper_refuted_witness. Qed.
+Print Assumptions precompute_strict_upper_refuted.
